@@ -154,7 +154,7 @@ def shrink(ops, still_fails, budget=60, seconds=150):
             n *= 2
     return cur
 
-def run_plain(exe, ops0, lean=True, timeout=300, env=None):
+def run_plain(exe, ops0, lean=True, timeout=300, env=None, want_err=False):
     """run ops (with @DUMPk@ placeholders) on C and on the model; returns (cblocks aligned with ops0, dump paths by op index,
     tie, sanitizer report, crash, model fault)"""
     sid = hashlib.sha1("\n".join(ops0).encode()).hexdigest()[:12]
@@ -179,4 +179,5 @@ def run_plain(exe, ops0, lean=True, timeout=300, env=None):
         elif d: tie = (d[0], d[1], d[2], lops)
         for b in lb:
             if b and b[0].startswith("= FAULT"): fault = b[0]; break
+    if want_err: return cb, paths, tie, san, crash, fault, err
     return cb, paths, tie, san, crash, fault
